@@ -25,6 +25,7 @@ type Obligation struct {
 	W      *World `json:"-"`
 	// expected: "unsat" (valid) normally; cover obligations expect "sat"
 	Cover bool `json:"cover,omitempty"`
+	Probe bool `json:"probe,omitempty"` // must-fail query (goal false): "unsat" means the assumptions on this path are contradictory
 	// Anc: blocks whose facts are relevant (ancestors of the obligation's block, itself included); nil = all
 	Anc map[int]bool `json:"-"`
 	// Focus: tag of the one loop-invariant assumption this obligation most likely needs
